@@ -234,11 +234,14 @@ def run_paths(case, r):
 HOPS = {
     "setA": lambda da: setattr(da, "polynom_coefficients", [1.0, 2.0]),
     "setB": lambda da: setattr(da, "polynom_coefficients", [0.5, 0.0, -2.0]),
+    # integer-valued settings first: a later fractional value must not be truncated to the stored type
+    "setI": lambda da: setattr(da, "polynom_coefficients", (2, 3)),
+    "setOi": lambda da: setattr(da, "expansion_origin", 3),
     "clearC": lambda da: setattr(da, "polynom_coefficients", None),
     "setO": lambda da: setattr(da, "expansion_origin", 2.5),
     "clearO": lambda da: setattr(da, "expansion_origin", None),
 }
-HMODEL = {"setA": ("c", [1.0, 2.0]), "setB": ("c", [0.5, 0.0, -2.0]), "clearC": ("c", []), "setO": ("o", 2.5),
+HMODEL = {"setI": ("c", [2.0, 3.0]), "setOi": ("o", 3.0), "setA": ("c", [1.0, 2.0]), "setB": ("c", [0.5, 0.0, -2.0]), "clearC": ("c", []), "setO": ("o", 2.5),
           "clearO": ("o", None)}
 
 
